@@ -222,6 +222,8 @@ func (l *linkedBuffer) WriteString(str string) error {
 
 func (l *linkedBuffer) recycle() {
 	l.recycleMux.Lock()
+	// slices pinned by earlier ReadBytes/Peek results belong to this buffer too
+	l.cleanPinnedList()
 	for l.sliceList.size() > 0 {
 		slice := l.sliceList.popFront()
 		if slice.isFromShm {
